@@ -90,13 +90,52 @@ func (fi *FuncInfo) topRef(ptr ssa.Value) (stack ssa.Value, ok bool) {
 	case *ssa.Alloc:
 		// local copy: exactly one whole-value store of a load of stack[len-1]
 		var st *ssa.Store
+		nst := 0
 		for _, ref := range *x.Referrers() {
 			if s, isSt := ref.(*ssa.Store); isSt && s.Addr == ssa.Value(x) {
-				if st != nil {
+				st = s
+				nst++
+			}
+		}
+		if nst > 1 {
+			// a variable that is re-loaded from the top after every pop (top = stack[len(stack)-1] before
+			// the pop loop and at the end of its body): every store reads the last element of a stack
+			// value, and those values are exactly what one φ of the stack merges — that φ is the stack
+			// the variable mirrors
+			bases := map[ssa.Value]bool{}
+			for _, ref := range *x.Referrers() {
+				s, isSt := ref.(*ssa.Store)
+				if !isSt || s.Addr != ssa.Value(x) {
+					continue
+				}
+				ld, isLd := s.Val.(*ssa.UnOp)
+				if !isLd || ld.Op != token.MUL {
 					return nil, false
 				}
-				st = s
+				ia2, isIA := ld.X.(*ssa.IndexAddr)
+				if !isIA || !fi.lin(ia2.Index).eq(fi.lenOf(ia2.X).addc(-1)) {
+					return nil, false
+				}
+				if _, isSlice := ia2.X.Type().Underlying().(*types.Slice); !isSlice {
+					return nil, false
+				}
+				bases[ia2.X] = true
 			}
+			for _, ph := range fi.phis {
+				if len(ph.Edges) != len(bases) {
+					continue
+				}
+				all := true
+				for _, e := range ph.Edges {
+					if !bases[e] {
+						all = false
+					}
+				}
+				if all {
+					return ph, true
+				}
+			}
+			return nil, false
 		}
 		if st == nil {
 			return nil, false
@@ -385,7 +424,15 @@ func (s *segScan) topNLoads() []Lin {
 			if !ok {
 				continue
 			}
-			if p, f, isFL := fieldLoad(v); isFL && p == s.topPtr && f == s.nF {
+			p, f, isFL := fieldLoad(v)
+			// … also read straight from the stack: stack[len(stack)-1].n
+			direct := false
+			if isFL && f == s.nF {
+				if ia, isIA := p.(*ssa.IndexAddr); isIA && types.Identical(ia.X.Type(), s.stack.Type()) && s.fi.lin(ia.Index).eq(s.fi.lenOf(ia.X).addc(-1)) {
+					direct = true
+				}
+			}
+			if isFL && (p == s.topPtr || direct) && f == s.nF {
 				if _, isU := v.(*ssa.UnOp); !isU {
 					if _, isF := v.(*ssa.Field); !isF {
 						continue
@@ -832,7 +879,20 @@ func ruleSegOrder(c *Ctx) {
 			if e == s.stack {
 				nEq++
 				cs := fi.edgeConds(pred, phi.Block())
-				eq := proveTop(func(t Lin) Lin { return n.sub(t) }, cs) && proveTop(func(t Lin) Lin { return t.sub(n) }, cs)
+				// (one level of path sensitivity: the pop loop may be left through a short-circuit
+				// condition whose alternatives only merge at the exit)
+				both := func(mk func(t Lin) Lin) bool {
+					if proveTop(mk, cs) {
+						return true
+					}
+					var goals []Lin
+					for _, t := range tops {
+						goals = append(goals, mk(t))
+					}
+					extra := fi.factsOf(fi.edgeLast(pred, phi.Block()))
+					return fi.proveAny(goals, pred, extra)
+				}
+				eq := both(func(t Lin) Lin { return n.sub(t) }) && both(func(t Lin) Lin { return t.sub(n) })
 				if !eq {
 					okEq = false
 					detail = fmt.Sprintf("edge from block %d leaves the stack unchanged although n = top.n is not established (facts %s)", pred.Index, factStrings(fi.factsOf(cs)))
@@ -975,6 +1035,11 @@ func ruleSegScan(c *Ctx) {
 			if !isRet {
 				continue
 			}
+			// only returns that end the scan: reachable from the position loop (the scan may be written
+			// inside Segments itself, whose argument checks return before any interval is open)
+			if jl := fi.loopOf(jphi.Block()); jl != nil && !fi.reach[jl.Header][b] && b != jl.Header {
+				continue
+			}
 			nRet++
 			cs := fi.condsAt(b)
 			if len(b.Preds) == 1 {
@@ -982,7 +1047,13 @@ func ruleSegScan(c *Ctx) {
 				cs = append(cs, fi.condsAt(b)...)
 			}
 			lp := fi.lenOf(pop)
-			if !(pop.Block().Dominates(b) && fi.proveLE0(lp, cs, nil, map[string]bool{}, 0)) {
+			// … or the return is taken under len(stack) = 0 for the stack of this iteration (pop loop
+			// `for len(stack) > 0 && …` followed by the emptiness test)
+			emptyNow := false
+			if st, isV := s.stack.(ssa.Value); isV && st != nil {
+				emptyNow = fi.proveLE0(fi.lenOf(st), cs, nil, map[string]bool{}, 0)
+			}
+			if !emptyNow && !(pop.Block().Dominates(b) && fi.proveLE0(lp, cs, nil, map[string]bool{}, 0)) {
 				okRet = false
 				detail = fmt.Sprintf("return at %s is not dominated by a pop that emptied the stack", c.pos(ret.Pos()))
 			}
